@@ -235,7 +235,7 @@ func CondEdges(fn *ssa.Function, c Cond) []Edge {
 			continue
 		}
 		s, ts := IfCanon(ifi)
-		if !Glob(want, s) {
+		if !MatchCond(want, s) {
 			continue
 		}
 		if sense {
@@ -536,9 +536,15 @@ func condsString(cs []Cond) string {
 
 // Before (K2 ordering): every path from entry to an instruction matching
 // `later` passes an instruction matching `earlier` first.
-func (c *Ctx) Before(fn *ssa.Function, earlier, later Target, why string) {
+func (c *Ctx) Before(fn *ssa.Function, earlier, later Target, why string, unless ...Cond) {
 	if fn == nil {
 		return
+	}
+	cutE := union(EdgeSet{}, InfeasibleEdges(fn))
+	for _, u := range unless {
+		for _, e := range CondEdges(fn, u) {
+			cutE[e] = true
+		}
 	}
 	fnName := load.QualName(fn)
 	what := earlier.Name + " precedes " + later.Name
@@ -578,7 +584,10 @@ func (c *Ctx) Before(fn *ssa.Function, earlier, later Target, why string) {
 		if _, ok := stop[b]; ok {
 			return
 		}
-		for _, s := range b.Succs {
+		for i, s := range b.Succs {
+			if cutE[Edge{b, i}] {
+				continue
+			}
 			dfs(s)
 		}
 	}
